@@ -116,6 +116,9 @@ func stressC12(d time.Duration, seed uint64) result {
 			}).To(func(req *restful.Request, resp *restful.Response) { resp.Write([]byte("c")) }))
 			c.Add(stable)
 			c.Add(dyn)
+			// the OPTIONS filter walks the registered services and their routes on its own
+			// (computeAllowedMethods) after dispatch has let go of the container's lock
+			c.Filter(c.OPTIONSFilter)
 			stop := make(chan struct{})
 			var wg sync.WaitGroup
 			// mutators
@@ -155,7 +158,7 @@ func stressC12(d time.Duration, seed uint64) result {
 									fmt.Sprintf("GET %s router=%s: status %d, want %d", path, router, rec.Code, want))
 							}
 						}
-						switch r.Intn(3) {
+						switch r.Intn(4) {
 						case 0:
 							ws := mkService(tmpRoot, 1, true)
 							c.Add(ws)
@@ -172,6 +175,28 @@ func stressC12(d time.Duration, seed uint64) result {
 							dyn.RemoveRoute("/dyn"+p, "GET")
 							count("RemoveRoute")
 							probe("/dyn"+p, 404, "RemoveRoute")
+						case 2:
+							// two routes for one method and path (they differ in what they produce) and a third one
+							// behind them: RemoveRoute(path, method) removes both and only them
+							p := fmt.Sprintf("/tw%d_%d", m, i%2)
+							x := func(req *restful.Request, resp *restful.Response) { resp.Write([]byte("x")) }
+							dyn.Route(dyn.GET(p).Produces("application/json").To(x))
+							dyn.Route(dyn.GET(p).Produces("application/xml").To(x))
+							dyn.Route(dyn.GET(p + "z").To(x))
+							count("Route-twins")
+							probe("/dyn"+p, 200, "Route")
+							func() {
+								defer func() {
+									if pv := recover(); pv != nil {
+										fail("RemoveRoute panicked", fmt.Sprint(pv))
+									}
+								}()
+								dyn.RemoveRoute("/dyn"+p, "GET")
+							}()
+							count("RemoveRoute-twins")
+							probe("/dyn"+p, 404, "RemoveRoute")
+							probe("/dyn"+p+"z", 200, "RemoveRoute of its neighbours")
+							dyn.RemoveRoute("/dyn"+p+"z", "GET")
 						default:
 							c.RegisteredWebServices()
 						}
@@ -204,6 +229,23 @@ func stressC12(d time.Duration, seed uint64) result {
 							path = fmt.Sprintf("/tmp%d/r0/%s", k%2, id)
 						}
 						req := httptest.NewRequest("GET", path, nil)
+						if r.Chance(1, 10) {
+							// OPTIONS: answered by the filter with the methods routable at that URL right now
+							orec := httptest.NewRecorder()
+							func() {
+								defer func() {
+									if p := recover(); p != nil {
+										fail("panic while the OPTIONS filter computed the allowed methods during registration changes", fmt.Sprint(p))
+									}
+								}()
+								c.Dispatch(orec, httptest.NewRequest("OPTIONS", path, nil))
+							}()
+							count("OPTIONS")
+							if want != "" && !strings.Contains(orec.Header().Get("Allow"), "GET") {
+								fail("the OPTIONS filter did not list GET for a route that is not being changed", fmt.Sprintf("%s router=%s: Allow %q", path, router, orec.Header().Get("Allow")))
+							}
+							continue
+						}
 						if r.Chance(1, 50) {
 							req = httptest.NewRequest("GET", "/stable/cond", nil)
 							req.Header.Set("X-Panic", "1")
@@ -327,6 +369,54 @@ func stressC13(d time.Duration, seed uint64) result {
 		case <-done:
 		case <-time.After(20 * time.Second):
 			return result{OK: false, What: "a goroutine is blocked in BoundedCachedCompressors acquire/release (watchdog, 20 s)", Detail: fmt.Sprintf("capacity=%d, 8 goroutines", capn)}
+		}
+	}
+	// (0b) release storms: more objects out than the cache can take back, all released at the same
+	// moment and nobody acquiring afterwards — a release that waits for room waits forever
+	for _, capn := range []int{1, 2} {
+		for _, kind := range []string{"gzip-writer", "zlib-writer", "gzip-reader"} {
+			p := restful.NewBoundedCachedCompressors(capn, capn)
+			for round := 0; round < 300; round++ {
+				const n = 6
+				held := make([]interface{}, n)
+				for i := range held {
+					switch kind {
+					case "gzip-writer":
+						held[i] = p.AcquireGzipWriter()
+					case "zlib-writer":
+						held[i] = p.AcquireZlibWriter()
+					default:
+						held[i] = p.AcquireGzipReader()
+					}
+				}
+				start := make(chan struct{})
+				var wg sync.WaitGroup
+				for i := range held {
+					wg.Add(1)
+					go func(o interface{}) {
+						defer wg.Done()
+						<-start
+						switch x := o.(type) {
+						case *gzip.Writer:
+							p.ReleaseGzipWriter(x)
+						case *zlib.Writer:
+							p.ReleaseZlibWriter(x)
+						case *gzip.Reader:
+							p.ReleaseGzipReader(x)
+						}
+					}(held[i])
+				}
+				close(start)
+				done := make(chan struct{})
+				go func() { wg.Wait(); close(done) }()
+				select {
+				case <-done:
+				case <-time.After(3 * time.Second):
+					return result{OK: false, What: "a release is blocked: " + kind + " released into a full cache waits for room that nobody makes (3 s, nobody acquiring)",
+						Detail: fmt.Sprintf("NewBoundedCachedCompressors(%d,%d), %d objects released at the same moment, round %d", capn, capn, n, round)}
+				}
+			}
+			count("release-storms:" + kind)
 		}
 	}
 	deadline := time.Now().Add(d)
